@@ -19,7 +19,9 @@ CASE_TIMEOUT = 600
 SELFTEST = {'quick': 4, 'thorough': 64}
 TOL = 1e-11
 REQUIRED_PROBES = ['iota_nonzero', 'iota_zero', 'start_flux_surface', 'start_v_parallel', 'start_poloidal']
-RULE = ('case = (grid sizes in [5..9]^4 with nz >= 7, amplified constants [small R0, iota zero or not, '
+RULE = ("Every check: in 12% of the cases one or two bystander ranks share the simulated job and the code under test runs on world.Split(...); one case in HASHSEED_EVERY is re-run in fresh interpreters under other string-hash seeds and every rank's trace (collectives, data sent, result) must agree. "
+        'Also: spline degrees other than cubic (20%), optional operator arguments (40%: gradient order, zDegree, nulEdge, density quadrature degree), the poloidal step that reuses the potential splines as a stage of its own, explicit rp / rMin / rMax in the hash-seed cases. '
+        'case = (grid sizes in [5..9]^4 with nz >= 7, amplified constants [small R0, iota zero or not, '
         'eps 1e-3..1e-1, random m, n, dt], starting layout, seeded smooth+noise perturbation of f and a '
         'seeded real O(1) potential, the serial process grid (1,1) plus 2-3 further admissible grids '
         '[favouring (1,n), (n,1), square and non-dividing ones, P <= 12], schedule/fault configuration '
